@@ -13,6 +13,8 @@ compared entry by entry with the variational equations written in the documented
               derivative of those right-hand sides w.r.t. the augmented state (blocks
               J, d(JS+G)/dx = H.S + GJ, I (x) J) in the same layout, both arrangements
  S5 R-SHAPE   the four matrix evaluators stay 2-D for one-state models
+ S6 R-DERIV/R-REFRESH  the symbolic builders behind jacobian, grad, diff_jacobian and grad_jacobian store the
+              right derivative in the row/column layout S1-S4 assume, and re-derive it on every call
 """
 import ast
 
@@ -126,6 +128,11 @@ def check(repo, res, tier):
     _cmp(res, "R-JAC", fn, "jacobianIV(nS=2,nP=0)", out, w.jac_iv(), "Jacobian of the initial-value system without parameters",
          "ode_and_sensitivityIV_jacobian (no parameters) is not the derivative of the system")
     res.floor("shape instances interpreted", n_inst, 5)
+    # S6: the evaluators these systems are assembled from are the (freshly derived) derivatives in the layouts assumed above
+    from . import C03
+    res.rule("R-DERIV", "jacobian / grad / diff_jacobian / grad_jacobian builders store the right derivative at the assumed row and column")
+    res.rule("R-REFRESH", "those builders rebuild what they differentiate on every call")
+    C03.check_builders(repo, res, {"get_jacobian_eqn", "get_grad_eqn", "get_diff_jacobian_eqn", "get_grad_jacobian_eqn"}, ((2, 3, 2), (3, 2, 1)))
     check_shapes(repo, res, {"jacobian", "grad", "diff_jacobian", "grad_jacobian"},
                  {"jacobian": "one-state models", "diff_jacobian": "one-state models: ode_and_sensitivity_jacobian",
                   "grad_jacobian": "one-state / one-parameter models"})
